@@ -1,6 +1,7 @@
 import UralModel.Py.PctCodec
 import UralModel.Py.UrlSplit
 import UralModel.Model.Protocol
+import UralModel.Model.UrlParts
 import UralModel.Gen.RedirectRe
 /-!
 # Model of `ural/infer_redirection.py`
@@ -13,12 +14,18 @@ and spell out the leftmost / ordered-choice semantics of `re.search` / `re.split
 obligations (`Ural.Props.C15.redirect_patterns_shape`) pin the frame
 `(?:^|[?&])(` keys `)=([^&]+)`, the flags, and the alphabet of the literals.
 
-`target`/`inferTarget` is the value of the Python variable `target` at line 89 (`None` ↦
-`none`; the two early `return url` — the `q` special case and the `ValueError` of `urljoin`
-— also give `none`, which leads to the same `return url`).  `inferStep` is
-`infer_redirection(url, recursive=False)`, `infer` is `infer_redirection(url)`; its
-recursion is the one of the code (`return infer_redirection(target, recursive=True)` under
-the guard `len(target) < len(url)`), which is what makes the definition well-founded.
+The function first cleans its argument the way the url functions clean their input
+(`cleanedUrl` = `CONTROL_CHARS_RE.sub("", url).strip()`, lines 40-43) and looks for its hints in
+the cleaned string; the argument itself is what it returns when nothing is followed.
+
+`inferTarget c` is the value of the Python variable `target` at line 91 as a function of the
+*cleaned* url `c` (`None` ↦ `none`; the two early `return original_url` — the `q` special case
+and the `ValueError` of `urljoin` — also give `none`, which leads to the same
+`return original_url`).  `inferStep` is `infer_redirection(url, recursive=False)`, `infer` is
+`infer_redirection(url)`; its recursion is the one of the code
+(`return infer_redirection(target, recursive=True)` under the guard
+`len(target) < len(cleaned url)`), which — the cleaned url being no longer than the url — is
+what makes the definition well-founded.
 -/
 namespace Ural
 open Ural.Py
@@ -105,12 +112,29 @@ def redirectSearch (url : Str) : Option (Str × Str) := redirectSearchFrom url t
 def httpsPrefix : Str := "https://".toList
 def httpPrefix : Str := "http://".toList
 
-/-- the join of a relative target — infer_redirection.py:68-78 (`none` = `ValueError`) -/
+/-- `CONTROL_CHARS_RE.sub("", url).strip()` — infer_redirection.py:40-43: the string the hints
+are searched in -/
+def cleanedUrl (url : Str) : Str := strip (UrlParts.stripControl url)
+
+theorem length_rstrip_le (s : Str) : (rstrip s).length ≤ s.length := by
+  unfold rstrip
+  rw [List.length_reverse]
+  exact Nat.le_trans (List.Sublist.length_le (List.dropWhile_sublist _)) (by rw [List.length_reverse]; exact Nat.le_refl _)
+
+/-- cleaning only removes characters -/
+theorem cleanedUrl_length_le (url : Str) : (cleanedUrl url).length ≤ url.length := by
+  unfold cleanedUrl strip lstrip UrlParts.stripControl
+  refine Nat.le_trans (length_rstrip_le _) ?_
+  exact Nat.le_trans (List.Sublist.length_le (List.dropWhile_sublist _)) (List.length_filter_le _ _)
+
+/-- the join of a relative target — infer_redirection.py:73-83 (`none` = `ValueError`);
+`url` is the cleaned url -/
 def joinRelative (url pt : Str) : Option Str :=
   if (protoLen url).isSome then urljoin url pt
   else (urljoin (httpPrefix ++ url) pt).map (fun t => t.drop 7)
 
-/-- what the hint `(key, value)` found in `url` designates — infer_redirection.py:52-82 -/
+/-- what the hint `(key, value)` found in the cleaned `url` designates —
+infer_redirection.py:57-87 -/
 def hintTarget (url key value : Str) : Option Str :=
   if key = ['q'] && !(contains url "/url?q=".toList) && !(contains url "/redirect".toList) then none
   else
@@ -121,8 +145,8 @@ def hintTarget (url key value : Str) : Option Str :=
     else if contains url "youtube.com/redirect?".toList then some (httpsPrefix ++ pt)
     else none
 
-/-- the variable `target` when line 89 is reached (or `none` if the function has returned
-`url` before) -/
+/-- the variable `target` when line 91 is reached (or `none` if the function has returned
+before), as a function of the cleaned url -/
 def inferTarget (url : Str) : Option Str :=
   match domainSplit url with
   | some tail => if tail ≠ [] then some (httpsPrefix ++ tail) else none
@@ -131,19 +155,21 @@ def inferTarget (url : Str) : Option Str :=
     | none => none
     | some (key, value) => hintTarget url key value
 
-/-- one guarded step for an arbitrary target function: follow the target only when it is
-strictly shorter — infer_redirection.py:86-90 -/
+/-- one guarded step for an arbitrary target function (of the cleaned url): follow the target
+only when it is strictly shorter than the cleaned url, else return the argument itself —
+infer_redirection.py:40-43, 89-97 -/
 def stepOf (target : Str → Option Str) (url : Str) : Str :=
-  match target url with
-  | some t => if t.length < url.length then t else url
+  match target (cleanedUrl url) with
+  | some t => if t.length < (cleanedUrl url).length then t else url
   | none => url
 
 /-- the recursion of the code for an arbitrary target function -/
 def inferOf (target : Str → Option Str) (url : Str) : Str :=
-  match target url with
-  | some t => if t.length < url.length then inferOf target t else url
+  match target (cleanedUrl url) with
+  | some t => if t.length < (cleanedUrl url).length then inferOf target t else url
   | none => url
 termination_by url.length
+decreasing_by exact Nat.lt_of_lt_of_le ‹_› (cleanedUrl_length_le url)
 
 /-- `infer_redirection(url, recursive=False)` -/
 def inferStep (url : Str) : Str := stepOf inferTarget url
@@ -161,8 +187,8 @@ to `infer` as soon as the fuel is at least the length of the url -/
 def inferFuel (target : Str → Option Str) : Nat → Str → Str
   | 0, url => url
   | fuel + 1, url =>
-    match target url with
-    | some t => if t.length < url.length then inferFuel target fuel t else url
+    match target (cleanedUrl url) with
+    | some t => if t.length < (cleanedUrl url).length then inferFuel target fuel t else url
     | none => url
 
 end Ural
